@@ -16,6 +16,7 @@ ASSUMPTIONS = ["std's iterator adapters (map, filter, filter_map, flat_map, take
 
 LAZY = {"map", "filter", "filter_map", "flat_map", "chain", "take", "zip", "inspect", "enumerate", "rev", "peekable",
         "into_iter", "by_ref", "cloned", "copied", "skip", "map_while", "take_while", "fuse", "flatten", "scan", "step_by"}
+NONPULLING = {"size_hint"}      # inspects, never advances
 ITER_TRAITS = ("core::iter::traits::iterator::Iterator", "core::iter::traits::collect::IntoIterator",
                "itertools::Itertools", "core::iter::traits::double_ended::DoubleEndedIterator")
 
@@ -104,6 +105,8 @@ def run(ctx, R):
                     name = "for-loop"
             if recv_ty is None or not S.is_ctx_iter_type(recv_ty):
                 continue
+            if name in NONPULLING:
+                continue
             nsites += 1
             key = "%s/%s" % (fname, name)
             R.check(name in LAZY, "r1", key, C.loc(n["sp"]),
@@ -166,24 +169,40 @@ def run(ctx, R):
         R.fail("r4", "anchor", "-", "interpret_ir not found")
     else:
         found = False
-        for n, anc in walk_with_ctx(f["body"]):
-            if n.get("k") == "mcall" and n.get("name") == "resolve_starting_vertices" and n.get("trait") == S.ADAPTER:
-                found = True
-                cur = n
-                ok = True
-                why = ""
-                for p in reversed(anc):
-                    if p.get("k") == "mcall" and strip(p.get("recv", {})) is cur or p.get("k") == "mcall" and p.get("recv") is cur:
-                        if p.get("name") in LAZY:
-                            cur = p
-                            continue
-                        ok = False
-                        why = p.get("name")
-                        break
-                    if p.get("k") == "call" and (p.get("callee") or "").endswith("Box::<T>::new"):
+        index = list(walk_with_ctx(f["body"]))
+
+        def chain(n, anc, depth=0):
+            """Follow the value of node n outwards: through lazy adapter calls, Box::new, `&`/`&mut`, and - when it is bound to a
+            local by a plain `let` - through every use of that local. Returns the name of a consuming method, or None."""
+            cur = n
+            for p in reversed(anc):
+                if p.get("k") == "mcall" and (strip(p.get("recv", {})) is cur or p.get("recv") is cur):
+                    if p.get("name") in LAZY:
                         cur = p
                         continue
-                    break
-                R.check(ok, "r4", "starting-vertices-wrapping", C.loc(n["sp"]),
+                    if p.get("name") in NONPULLING:
+                        return None
+                    return p.get("name")
+                if p.get("k") == "call" and (p.get("callee") or "").endswith("Box::<T>::new"):
+                    cur = p
+                    continue
+                if p.get("k") in ("ref", "paren", "cast", "block") and depth < 6:
+                    cur = p
+                    continue
+                if p.get("k") == "let" and p.get("init") is cur and p.get("pat", {}).get("k") == "bind" and depth < 6:
+                    bid = p["pat"].get("bid")
+                    for m, manc in index:
+                        if m.get("k") == "local" and m.get("bid") == bid:
+                            w = chain(m, manc, depth + 1)
+                            if w is not None:
+                                return w
+                    return None
+                break
+            return None
+        for n, anc in index:
+            if n.get("k") == "mcall" and n.get("name") == "resolve_starting_vertices" and n.get("trait") == S.ADAPTER:
+                found = True
+                why = chain(n, anc)
+                R.check(why is None, "r4", "starting-vertices-wrapping", C.loc(n["sp"]),
                         "the starting-vertex iterator is consumed by `%s` in interpret_ir" % why)
         R.check(found, "r4", "anchor:call", C.loc(f["sp"]), "no resolve_starting_vertices call in interpret_ir")
